@@ -15,11 +15,12 @@ from z3 import And, Or, Not, If, Implies, Int, Ints, IntVal, BoolVal, ForAll, Ex
 
 from pyvc.front import select, SelectorError, OutOfSubset, walk_no_defs
 from pyvc.symex import Exec, State, LoopSpec
-from pyvc.theories import TypePreds
+from pyvc.theories import TypePreds, ConcreteStr
 from pyvc.th_lists import Lists, Val, VAL, fresh_list, V, as_list_sv
 from pyvc.th_tables import Tables, Key, KEY, fresh_table, wf, no_columns, nrows, column, same_table, key_of
 from pyvc.sv import SV, I, B, S, T, NONE, fresh_name, fresh_int
-from pyvc.th_tables2 import (Rows, CNT, cnt_def, count_lemmas, fresh_rowlist, rows_of, mask_list, rowmap, fresh_colmap, as_table, CLS)
+from pyvc.th_tables2 import (Rows, Init, Concat, CNT, cnt_def, count_lemmas, fresh_rowlist, rows_of, mask_list, rowmap, fresh_colmap, as_table, CLS,
+                              equally_long, same_columns, records_contract, empty_with_columns_contract)
 
 PROP = 'C01'
 REPLAY_MODULE = 'rac.C01_ded'
@@ -73,6 +74,16 @@ class Dictable:
         if vnew.kind == 'val':
             return SV('rowmap', None, dom=t.dom, vals=Lambda([kv], vnew.t))
         raise OutOfSubset('dict comprehension with %s values' % vnew.kind)
+
+
+def ground_section(ctx, n0, rounds=2, only=None):
+    """the obligations of a section are replaced by their quantifier-free grounding (pyvc/ground.py: universal hypotheses instantiated over the
+    index terms of the query - a weakening of the hypotheses, so `unsat` still proves the clause, and a failing clause comes back `sat`)"""
+    from pyvc.ground import ground_obligation
+    for ob in ctx.obligations[n0:]:
+        if ob.kind != 'syntactic' and (only is None or only(ob.name)):
+            ground_obligation(ob, rounds=rounds)
+    ctx.trust('engine:obligations of the table sections are discharged on their grounding (universal hypotheses replaced by instances over the index terms of the query)')
 
 
 def _inline(m):
@@ -186,6 +197,95 @@ def mask_obligations(ctx, m):
     count_lemmas(ctx, '__getitem__.mask')
     ctx.cover('__getitem__.mask.pre', pre + [n == 3, t.dom[key_of('a')], marr[0] == 1, marr[1] == 0, marr[2] == 1])
     ctx.cover('__getitem__.mask.nothing_kept_reachable', pre + [n == 2, t.dom[key_of('a')], marr[0] == 0, marr[1] == 0])
+
+
+# ====================================================================================================== the constructor
+def _new_table():
+    return SV('table', None, dom=z3.K(Key, False), clen=z3.K(Key, IntVal(0)), carr=z3.Array(fresh_name('new_col'), Key, z3.ArraySort(z3.IntSort(), Val)),
+              cls='dictable', fresh=True)
+
+
+def constructor_obligations(ctx, m):
+    """dictable.__init__ with _data_columns_as_dict, _value and as_list inlined from the source, for the argument shapes the selection forms and
+    concat use: a dict of equally long lists, ([], column names), a list of records (dict_concat by its contract), and no argument.  These are
+    the contracts `Rows.call_value` hands to callers of `type(self)(...)`."""
+    fdef = m.func('dictable.__init__')
+    ma = ctx.mod('_as_list')
+    inline = _inline(m)
+    inline['_data_columns_as_dict'] = (m, m.func('_data_columns_as_dict'))
+    inline['as_list'] = (ma, ma.func('as_list'))
+    t = fresh_table('cols_of')
+    cm = fresh_colmap('data')
+    rl = fresh_rowlist('data')
+    shapes = [('columns', cm, NONE, [equally_long(cm)], lambda o: [('stores_exactly_the_given_columns', same_columns(o, cm))]),
+              ('empty', SV('list', IntVal(0), ety=None, arrs=None), SV('tkeys', None, of=t), [],
+               lambda o: [('has_exactly_the_given_columns_and_no_row_%d' % i_, f) for i_, f in enumerate(empty_with_columns_contract(t.dom, o))]),
+              ('records', rl, NONE, [rl.t >= 0],
+               lambda o: [('no_record_no_column', records_contract(rl, o)[0]), ('one_key_set_columns_list_the_records_in_order', records_contract(rl, o)[1]),
+                          ('several_key_sets_union_with_None_for_absent_cells', records_contract(rl, o)[2])]),
+              ('nothing', NONE, NONE, [], lambda o: [('has_no_column', no_columns(o))])]
+    for label, data, columns, pre, posts in shapes:
+        ex = Exec(m, [Init(), Rows(), Dictable(m), Tables(), Lists(), TypePreds(extra={'is_arr': ()}), ConcreteStr(m)], inline=inline, name='constructor.' + label)
+        st = State()
+        st.pc += pre
+        outs = ex.run_function(st, 'dictable.__init__', [_new_table(), data, columns], {})
+        ctx.absorb(ex)
+        ctx.record_function(m, 'dictable.__init__', fdef, ex.stmts_executed, excluded=['keyword columns, scalar / length-1 broadcast on construction: bounded only'])
+        ctx.record_function(m, '_data_columns_as_dict', inline['_data_columns_as_dict'][1], ex.stmts_executed,
+                            excluded=['paths, DataFrames, cursors, rows + headers, lists of pairs / of lists: bounded only'])
+        nret = 0
+        for out in outs:
+            hy = ex.facts + out.st.pc
+            if out.kind != 'return':
+                ctx.post('constructor.%s.never_raises.%s' % (label, out.val), hy, BoolVal(False), kind='safety')
+                continue
+            nret += 1
+            for cname, goal in posts(out.st.env['self']):
+                ctx.post('constructor.%s.%s' % (label, cname), hy, goal)
+        if nret == 0:
+            raise OutOfSubset('constructor (%s) has no returning path' % label)
+        ctx.cover('constructor.%s.pre' % label, pre)
+
+
+# ====================================================================================================== dict_concat
+def dict_concat_obligations(ctx, m):
+    """dict_concat(list of records), whole body with as_list inlined: {} for no record; the one-record shortcut; records with one common key set
+    (sorted items, transposed, zipped with the sorted keys); otherwise the union of the key sets with d.get(key).  Postcondition = the contract
+    the constructor section uses (`records_contract`)."""
+    fdef = m.func('dict_concat')
+    ma = ctx.mod('_as_list')
+    inline = {'dict_concat': (m, fdef), 'as_list': (ma, ma.func('as_list'))}
+    rl = fresh_rowlist('dicts')
+    n0 = len(ctx.obligations)
+    ex = Exec(m, [Concat(), Init(dict_concat=None), Rows(), Lists(), TypePreds()], inline=inline, name='dict_concat')
+    st = State()
+    st.pc.append(rl.t >= 0)
+    outs = ex.run_function(st, 'dict_concat', [rl], {})
+    ctx.absorb(ex)
+    ctx.record_function(m, 'dict_concat', fdef, ex.stmts_executed)
+    ctx.record_function(ma, 'as_list', inline['as_list'][1], ex.stmts_executed, excluded=['arguments other than a tuple holding one list: see C19'])
+    nret = 0
+    for out in outs:
+        hy = ex.facts + out.st.pc
+        if out.kind != 'return':
+            ctx.post('dict_concat.never_raises.%s' % out.val, hy, BoolVal(False), kind='safety')
+            continue
+        nret += 1
+        o = out.val
+        if o.kind != 'colmap':
+            raise OutOfSubset('dict_concat returns %s' % o.kind)
+        none_, same, union = records_contract(rl, o)
+        ctx.post('dict_concat.no_record_no_key', hy, none_)
+        ctx.post('dict_concat.one_key_set.column_k_lists_record_k_in_order', hy, same)
+        ctx.post('dict_concat.several_key_sets.union_of_keys_and_None_for_absent', hy, union)
+    ground_section(ctx, n0)
+    if nret < 4:
+        raise OutOfSubset('dict_concat: expected the four returning branches (none, one record, one key set, several key sets), got %d' % nret)
+    j = Int('j!cv')
+    ka, kb = key_of('a'), key_of('b')
+    ab = Store(Store(z3.K(Key, False), ka, True), kb, True)
+    ctx.cover('dict_concat.one_key_set_reachable', [rl.t == 2, Select(rl.doms, 0) == ab, Select(rl.doms, 1) == ab])
+    ctx.cover('dict_concat.several_key_sets_reachable', [rl.t == 2, Select(Select(rl.doms, 0), ka), Not(Select(Select(rl.doms, 1), ka))])
 
 
 def build(ctx):
@@ -308,6 +408,8 @@ def build(ctx):
     ctx.guarded('__getitem__.int', row_section)
     ctx.guarded('__iter__', lambda: iter_obligations(ctx, m))
     ctx.guarded('__getitem__.mask', lambda: mask_obligations(ctx, m))
+    ctx.guarded('constructor', lambda: constructor_obligations(ctx, m))
+    ctx.guarded('dict_concat', lambda: dict_concat_obligations(ctx, m))
     ctx.trust('rectangularity of tables produced by operations other than __setitem__ (constructor forms, masks, concat, ...) is checked by the bounded stand-in only')
 
     # ------------------------------------------------------------------ frame: operations that return a new object never alter their operands
